@@ -358,8 +358,16 @@ def fstep1 (cfg : FCfg) (s : FSt) (op : FOp) : FSt := fstep cfg { s with evs := 
 def frun (cfg : FCfg) (s : FSt) (ops : List FOp) : List FSt := Frappy.Scan.scan (fstep1 cfg) s ops
 def fexec (cfg : FCfg) (s : FSt) (ops : List FOp) : FSt := ops.foldl (fstep1 cfg) s
 
-/-! ## Limit parameters (params.py:555-580, modulebase.py:156-169, 843-869, datatypes.py:1252-1265; repaired code)
+/-! ## Limit parameters (params.py:555-580, modulebase.py:156-200, 885-910, datatypes.py:1252-1265; repaired code)
 
+    HasAccessibles.__init_subclass__ (for every class `cls` of the hierarchy, when it is created):
+        for postfix in ('_limits', '_min', '_max'):
+            if <p><postfix> in accessibles:
+                base = next(b for b in reversed(cls.__mro__) if <p><postfix> in b.__dict__)   # where it is defined first
+                if 'check_<p>' not in base.__dict__:                                          # no own check method there
+                    setattr(base, 'check_<p>', lambda self, value: self.checkLimits(value, <p>))
+        cfuncs = tuple(filter(None, (b.__dict__.get('check_<p>') for b in cls.__mro__)))
+    write wrapper:   validate(value);  for c in cfuncs: if c(self, value): break;  write_<p>(…)
     checkLimits(value, pname):
         if <p>_limits exists:  min_, max_ = <p>_limits;  not min_ <= value <= max_ -> RangeError
         min_ = <p>_min or -inf; max_ = <p>_max or +inf
@@ -367,14 +375,34 @@ def fexec (cfg : FCfg) (s : FSt) (ops : List FOp) : FSt := ops.foldl (fstep1 cfg
     <p>_limits has datatype LimitsType(datatype of p): an inverted pair is a RangeError
 -/
 
+/-- what a programmer-written `check_<p>(value)` does with a value: returns `None` (the next check method is called),
+returns `True` (no further check methods: `if c(self, value): break`), or raises (an oracle, like the `write_<p>` body) -/
+inductive CRes
+  | pass
+  | stop
+  | fail (k : ExcKind)
+  deriving Repr, DecidableEq, Inhabited
+
+/-- one class of the MRO of the module class, as far as the limits of `<p>` are concerned: which limit parameters
+its body declares and whether its body defines `check_<p>` -/
+structure Layer where
+  declMin : Bool := false
+  declMax : Bool := false
+  declLimits : Bool := false
+  ownCheck : Bool := false
+  deriving Repr, DecidableEq, Inhabited
+
 structure LCfg where
   lo : Val                       -- datatype range of the base parameter (and of every limit parameter)
   hi : Val
-  hasMin : Bool
-  hasMax : Bool
-  hasLimits : Bool
+  layers : List Layer            -- the classes of the module class in MRO order (most derived first)
   hasW : Bool                    -- the programmer wrote write_<p>
   deriving Repr, DecidableEq
+
+/-- `<p>_min in accessibles`: some class of the hierarchy declares it -/
+def LCfg.hasMin (cfg : LCfg) : Bool := cfg.layers.any (·.declMin)
+def LCfg.hasMax (cfg : LCfg) : Bool := cfg.layers.any (·.declMax)
+def LCfg.hasLimits (cfg : LCfg) : Bool := cfg.layers.any (·.declLimits)
 
 inductive LEv
   | value (x : Val)
@@ -405,8 +433,36 @@ def checkLimits (cfg : LCfg) (s : LSt) (x : Val) : Bool :=
 def lemit (s : LSt) (e : LEv) : LSt := { s with evs := s.evs ++ [e], ok := true }
 def lfail (s : LSt) : LSt := { s with ok := false }
 
+/-- class `l`, followed in the MRO by the classes `rest`, is the class where one of the limit parameters is defined
+first (`next(b for b in reversed(cls.__mro__) if limname in b.__dict__)`) -/
+def isFirstDef (l : Layer) (rest : List Layer) : Bool :=
+  (l.declMin && !rest.any (·.declMin)) || (l.declMax && !rest.any (·.declMax)) ||
+  (l.declLimits && !rest.any (·.declLimits))
+
+/-- outcome of the loop over the check methods -/
+structure ChkRes where
+  ok : Bool                      -- no check method raised
+  exc : Option ExcKind := none   -- the exception of a programmer's check method
+  stopAt : Option Nat := none    -- MRO position of the programmer's check method that returned `True`
+  deriving Repr, DecidableEq, Inhabited
+
+/-- `for c in cfuncs: if c(self, value): break` with `cfuncs` = the `check_<p>` entries of the class dicts in MRO order:
+the programmer's method where the class body defines one (oracle `c`, by MRO position), else the automatic
+`checkLimits` call where the class defines a limit parameter first, else nothing.  `lim` = `checkLimits` does not raise. -/
+def runChecks (lim : Bool) (c : List CRes) : List Layer → Nat → ChkRes
+  | [], _ => { ok := true }
+  | l :: rest, i =>
+    if l.ownCheck then
+      match c.getD i .pass with
+      | .pass => runChecks lim c rest (i + 1)
+      | .stop => { ok := true, stopAt := some i }
+      | .fail k => { ok := false, exc := some k }
+    else if isFirstDef l rest then
+      if lim then runChecks lim c rest (i + 1) else { ok := false }
+    else runChecks lim c rest (i + 1)
+
 inductive LOp
-  | write (x : Val) (w : WRes Val)       -- change <p> / write_<p>(x)
+  | write (x : Val) (c : List CRes) (w : WRes Val)       -- change <p> / write_<p>(x); `c`: what the check methods do
   | writeMin (x : Val)
   | writeMax (x : Val)
   | writeLimits (a b : Val)
@@ -420,9 +476,10 @@ inductive LOp
 def validLimits (cfg : LCfg) (a b : Val) : Bool := inRange cfg a && inRange cfg b && decide (a ≤ b)
 
 def lstep (cfg : LCfg) (s : LSt) : LOp → LSt
-  | .write x w =>
+  | .write x c w =>
     if !inRange cfg x then lfail s
-    else if !checkLimits cfg s x then lfail s
+    else if !(runChecks (checkLimits cfg s x) c cfg.layers 0).ok then
+      { s with ok := false, exc := (runChecks (checkLimits cfg s x) c cfg.layers 0).exc }
     else if cfg.hasW then
       match w with
       | .fail k => { s with ok := false, exc := some k }
